@@ -745,9 +745,12 @@ def check_pair_methods(ctx):
     a = [c for c in fv.calls() if U(c.func) == "self.emulsions.append"]
     b = [c for c in fv.calls() if U(c.func) == "self.times.append"]
     tp = fi.params[2]
-    ok = len(a) == 1 and len(b) == 1 and fv.post_dominates(b[0], a[0])
-    ctx.decide(ok, "PAIR", fi.qualname, (fi, b[0]) if b else fi, "one emulsion and one time are appended on every path",
-               "EmulsionTimeCourse.append does not append exactly one time for the appended emulsion on every path")
+    from ..astutil import count_on_normal_paths
+
+    ok = len(a) == 1 and len(b) == 1 and fv.post_dominates(b[0], a[0]) and count_on_normal_paths(fv, [a[0]]) == {1} and count_on_normal_paths(fv, [b[0]]) == {1}
+    ctx.decide(ok, "PAIR", fi.qualname, (fi, b[0]) if b else fi, "one emulsion and one time are appended on every path that does not raise",
+               "EmulsionTimeCourse.append does not append exactly one emulsion and one time on every path: some call returns without adding a frame (e.g. it overwrites the last "
+               "frame when the time repeats), so a file with repeated time stamps reads back with fewer frames than were written")
     if b:
         _check_default_time(ctx, fi, fv, b[0], tp)
     fi = m.func(f"{EM}.EmulsionTimeCourse.clear")
@@ -1015,3 +1018,30 @@ def check_statistics(ctx, rule="STAT"):
                        f"`{U(r_[0].value)[:70]}` is not the sum of every member's own .volume")
         else:
             ctx.undecided(rule, q, ti, "not a single sum(...)")
+
+
+def check_trajectory_axis(ctx, rule="STAT"):
+    """Smoothing a trajectory acts along time: the array is (time, component…), so every 1-d filter applied in DropletTrack
+    names axis 0 (the library default, the last axis, would mix the coordinates of one time point instead)."""
+    m = ctx.model
+    q = f"{TR}.DropletTrack.get_trajectory"
+    if not m.has_func(q):
+        return
+    fi = m.func(q)
+    fv = view(m, fi)
+    calls = [c for c in fv.calls() if (fv.callee(c) or U(c.func)).split(".")[-1] in ("gaussian_filter1d", "uniform_filter1d", "convolve1d", "correlate1d", "savgol_filter", "median_filter")]
+    for k, c in enumerate(calls):
+        ax = kwarg(c, "axis")
+        if ax is None:
+            from ..astutil import dict_items
+
+            for k_ in c.keywords:
+                if k_.arg is None:
+                    items = dict_items(fv, k_.value, c)
+                    if items and "axis" in items:
+                        ax = items["axis"]
+        ok = ax is not None and U(ax) == "0"
+        ctx.decide(ok, rule, f"{q}:time-axis#{k}", (fi, c), "the filter runs along axis 0 (time)",
+                   f"`{U(c)[:80]}` filters along {'axis ' + U(ax) if ax is not None else 'the default (last) axis'}: for vector attributes (position) the coordinates of one time point are mixed instead of smoothing over time")
+    if not calls:
+        ctx.undecided(rule, q, fi, "no 1-d filter found")
